@@ -19,6 +19,7 @@ func init() {
 }
 
 func c02(c *Ctx) {
+	c.pageLoopsComplete("complete", "CommitJournal", "rollbackJournalSegment")
 	p := c.P
 	call := func(n string) IM { return p.PlainCalls("litefs.(*DB)." + n) }
 
